@@ -30,7 +30,7 @@ func TestVerifC39(t *testing.T) {
 		"returned and no compaction is in progress - and again after close+reopen - no table or blob file may remain in the directory that is " +
 		"in no live version. distinct_nontrivial = distinct (history, removed file) pairs checked against the live set.")
 	n := vcommon.Scale(100, 2500)
-	k := dbcheck.Knobs{Name: "C39", Units: 120, RangeKeys: true, Batches: true, Snapshots: true, SnapAudit: true, LongIters: true, EFOS: true,
+	k := dbcheck.Knobs{Name: "C39", Units: 120, FlushGate: true, RangeKeys: true, Batches: true, Snapshots: true, SnapAudit: true, LongIters: true, EFOS: true,
 		Maint: true, MaintHeavy: true, Reopen: true, Ingest: true, Excise: true, BigValues: true, ValueSep: true, AuditEvery: 15,
 		NoAutoCompactionsPct: 10, TinyCaches: true}
 	R.Cases(n, func(i int, rng *rand.Rand) {
